@@ -29,6 +29,10 @@ func runC06(c *an.Ctx) {
 	r06g(c)
 	r06h(c)
 	r06i(c)
+	// round 7
+	filterOnlyByType(c, "R06j", "FilterTasks")
+	pendingResetRule(c, "R06k")
+	r06l(c)
 }
 
 func before(a, b ssa.Instruction) bool { return an.CanReach(a, b) && !an.CanReach(b, a) }
